@@ -212,6 +212,21 @@ Section Signs.
   Proof.
     intros Hd. exact (similarity_factor_det_lemma R r0 r1 radd rmul rsub ropp rdiv rneg Rth Hd).
   Qed.
+  (* (16) PolyAffine.left_compose(affine A) - reached by A.compose(P): the kernel
+     is a normalised weighted sum T(y) = sum_i w_i(y) T_i y (weights: any
+     oracle function with sum 1 at the evaluated point).  The result built as
+     the source does (local affines A.T_i, global affine kept - both read from
+     the translated source) applied to x equals A applied to P(x), also when P
+     already carries a global affine G (y = G x). *)
+  Theorem polyaffine_left_compose_apply :
+    forall (w : list R -> list R) glob Ts A x,
+    wf_aff r0 r1 3 3 A -> Forall (wf_aff r0 r1 3 3) Ts ->
+    (forall G, glob = Some G -> wf_aff r0 r1 3 3 G) -> length x = 3 ->
+    length (w (pa_first R r0 r1 radd rmul glob x)) = length Ts ->
+    vtotal R r0 radd (w (pa_first R r0 r1 radd rmul glob x)) = r1 ->
+    pa_apply_w R r0 r1 radd rmul w (pa_left_glob R glob) (pa_left_locals R r0 radd rmul Ts A) x
+    = happly r0 r1 radd rmul A (pa_apply_w R r0 r1 radd rmul w glob Ts x).
+  Proof. exact (polyaffine_left_compose_apply_lemma R r0 r1 radd rmul rsub ropp Rth). Qed.
 End Signs.
 Print Assumptions sign_fix_factors_proper_affine.
 Print Assumptions sign_fix_factors_proper_rigid.
@@ -219,6 +234,7 @@ Print Assumptions polyaffine_compose_apply.
 Print Assumptions rotations_closed.
 Print Assumptions rigid_compose_closed.
 Print Assumptions similarity_factor_det_partial.
+Print Assumptions polyaffine_left_compose_apply.
 
 (* (7) Over the real numbers: rotation_vec2mat(r) is a proper rotation
    (R^T R = R R^T = I, det R = 1) whenever theta = |r| exceeds the small-angle
